@@ -57,6 +57,9 @@ mod interp;
 mod program;
 mod types;
 
+#[cfg(rscel_verif)]
+pub mod verif;
+
 // Export some public interface
 pub mod utils;
 pub use compiler::{
